@@ -1,0 +1,7 @@
+//go:build !verif
+// +build !verif
+
+package tensor
+
+func verifIntsReturned(is []int) {}
+func verifIntsBorrowed(is []int) {}
